@@ -194,6 +194,8 @@ class _Lower(csymx.Lower):
         self.local_arrays = _private_arrays(fn)
         self.locals = {x["name"] for x in cfront.walk(cfront.body_of(fn) or {}) if x.get("kind") == "VarDecl" and x.get("name")} | set(self.params) if isinstance(fn, dict) else set()
         self.fork = False                # lower if-statements path by path (wrappers) instead of merging the arms
+        self._guard = sp.true            # the test inside a loop body under which the element store being recorded is reached
+        self.partial_loops = []          # lines of element-storing loops in which some way through the body stores nothing
         self._paths = 0
 
     def expr(self, n):
@@ -349,7 +351,7 @@ class _Lower(csymx.Lower):
         if len(recs) != 1:
             return None
         r = recs[0]
-        if r["loop"] is None or r["index"] != IDX or r.get("cond") != self._cond:
+        if r["loop"] is None or r["index"] != IDX or r.get("cond") != self._cond or r.get("guard", sp.true) != sp.true:
             return None
         lo, hi = r["loop"]
 
@@ -578,7 +580,7 @@ class _Lower(csymx.Lower):
             return False
         if lhs.get("kind") == "ArraySubscriptExpr":
             self.stores.append({"base": self.expr(lhs["inner"][0]), "index": self.expr(lhs["inner"][1]), "value": self.expr(st["inner"][1]), "loop": self._loop,
-                                "cond": self._cond})
+                                "cond": self._cond, "guard": self._guard})
             return True
         return False
 
@@ -604,15 +606,67 @@ class _Lower(csymx.Lower):
         save, outer = dict(self.env), self._loop
         self.env[iv] = IDX
         self._loop = (lo, hi)
+
+        def changes_index(b):
+            return any(x.get("kind") in ("UnaryOperator", "CompoundAssignOperator", "BinaryOperator") and x.get("opcode") in ("++", "--", "+=", "-=", "=") and cfront.render(x["inner"][0]) == iv for x in cfront.walk(b))
+
+        def guarded(stmts, guard, stored):
+            """an if-statement of the loop body whose arms only store elements (and may end the iteration with `continue`): every
+            store is recorded with the guard it is reached under.  Returns (guard under which control falls out of the statements,
+            whether an element was stored on every way through them, whether every iteration ended by `continue` had stored one)."""
+            ended_ok = True
+            for b in stmts:
+                k = b.get("kind")
+                if k == "NullStmt":
+                    continue
+                if k == "ContinueStmt":
+                    return sp.false, stored, ended_ok and stored
+                if is_store(b):
+                    if changes_index(b):
+                        raise csymx.CUnsupported("the loop body changes its index (line %s)" % b.get("line"))
+                    self._guard = guard
+                    try:
+                        self._store_stmt(b)
+                    finally:
+                        self._guard = sp.true
+                    stored = True
+                    continue
+                if k == "IfStmt":
+                    parts = [x for x in (b.get("inner", []) or []) if isinstance(x, dict) and x.get("kind")]
+                    if len(parts) < 2 or any(x.get("kind") in ("CallExpr", "CompoundAssignOperator") or (x.get("kind") in ("BinaryOperator", "UnaryOperator") and x.get("opcode") in ("=", "++", "--"))
+                                             for x in cfront.walk(parts[0])):
+                        raise csymx.CUnsupported("loop body statement %s (line %s)" % (k, b.get("line")))
+                    c = self.truth(self.expr(parts[0]))
+                    g1, s1, e1 = guarded(_branch_stmts(parts[1]), sp.And(guard, c), stored)
+                    g2, s2, e2 = guarded(_branch_stmts(parts[2]) if len(parts) > 2 else [], sp.And(guard, sp.Not(c)), stored)
+                    ended_ok = ended_ok and e1 and e2
+                    if g1 == sp.false and g2 == sp.false:
+                        return sp.false, stored, ended_ok
+                    guard, stored = (g2, s2) if g1 == sp.false else (g1, s1) if g2 == sp.false else (guard, s1 and s2)
+                    continue
+                raise csymx.CUnsupported("loop body statement %s (line %s)" % (k, b.get("line")))
+            return guard, stored, ended_ok
+
+        guard, stored, ended_ok = sp.true, False, True
         for b in bs:
             k = b.get("kind")
-            if is_store(b) or (k == "BinaryOperator" and b.get("opcode") == "=" and cfront.strip(b["inner"][0]).get("kind") == "DeclRefExpr") or k in ("DeclStmt", "NullStmt"):
-                if any(x.get("kind") in ("UnaryOperator", "CompoundAssignOperator", "BinaryOperator") and x.get("opcode") in ("++", "--", "+=", "-=", "=") and cfront.render(x["inner"][0]) == iv for x in cfront.walk(b)):
+            if guard == sp.true and (is_store(b) or (k == "BinaryOperator" and b.get("opcode") == "=" and cfront.strip(b["inner"][0]).get("kind") == "DeclRefExpr") or k in ("DeclStmt", "NullStmt")):
+                if changes_index(b):
                     raise csymx.CUnsupported("the loop body changes its index (line %s)" % b.get("line"))
                 if not self._store_stmt(b):
                     csymx.Lower.run(self, [b], cond)
+                else:
+                    stored = True
+            elif k in ("IfStmt", "ContinueStmt") or (guard != sp.true and (is_store(b) or k == "NullStmt")):
+                guard, stored, e_ = guarded([b], guard, stored)
+                ended_ok = ended_ok and e_
+                if guard == sp.false:
+                    break
             else:
                 raise csymx.CUnsupported("loop body statement %s (line %s)" % (k, b.get("line")))
+        if not (ended_ok and (stored or guard == sp.false)):
+            # some way through the body stores no element
+            self.partial_loops.append(st.get("line"))
         self.env, self._loop = save, outer
         return True
 
@@ -891,6 +945,62 @@ def _same_on_every_region(t, ref, case, why=None):
     return _all3(verdicts)
 
 
+_MONOTONE = ("Dc",)
+
+
+def _by_redshift_order(t, ref, case, why=None):
+    """t equals ref in a case that fixes the order of two redshifts, when guards of t compare distances instead of redshifts.
+    What such a test says about the redshifts follows from the distance as a function of redshift: the line-of-sight comoving
+    distance D_C(a, .) is the integral of a positive integrand, strictly increasing in its upper limit (and D_C(a, b) has the sign
+    of b - a), so a comparison of two of its values with a common lower limit is the comparison of the upper limits.  The
+    angular diameter distance D_A(0, z) = D_M/(1+z) is NOT monotonic in z (it rises to a maximum and falls again, Hogg 1999
+    fig. 2): the order of two of its values at different redshifts is not fixed by the order of the redshifts, both orders occur,
+    so such a test is an input of its own and the value must be ref on both of its sides (_same_on_every_region).  Tests on other
+    quantities are not decided (None)."""
+    if t is None:
+        return None
+    try:
+        r = t.subs(case, simultaneous=True)
+        if r.has(sp.Piecewise):
+            r = sp.piecewise_fold(r)
+    except Exception:
+        return None
+    App = sp.core.function.AppliedUndef
+    rewrite, free = {}, False
+    for rel in r.atoms(sp.core.relational.Relational):
+        apps = rel.atoms(App)
+        if not apps:
+            return None
+        l, rr = rel.lhs, rel.rhs
+        if isinstance(l, App) and isinstance(rr, App) and l.func == rr.func and len(l.args) == len(rr.args) == 3 and l.args[:2] == rr.args[:2]:
+            name = l.func.__name__
+            if name in _MONOTONE:
+                rewrite[rel] = rel.func(l.args[2], rr.args[2])
+                continue
+            if name == "Da" and sp.simplify(l.args[2] - rr.args[2]) != 0:
+                free = True
+                continue
+        if isinstance(l, App) and l.func.__name__ in _MONOTONE and len(l.args) == 3 and rr == 0:
+            rewrite[rel] = rel.func(l.args[2] - l.args[1], 0)
+            continue
+        if isinstance(rr, App) and rr.func.__name__ in _MONOTONE and len(rr.args) == 3 and l == 0:
+            rewrite[rel] = rel.func(0, rr.args[2] - rr.args[1])
+            continue
+        return None
+    try:
+        r = r.xreplace(rewrite)
+        if r.has(sp.Piecewise):
+            r = sp.piecewise_fold(r)
+    except Exception:
+        return None
+    want = ref.subs(case, simultaneous=True)
+    if not r.has(sp.Piecewise) and not r.atoms(sp.core.relational.Relational):
+        return bool(_eq(r, want))
+    if not free:
+        return None
+    return _same_on_every_region(r, want, {}, why)
+
+
 def _all3(vals):
     """conjunction over True / False / None: a recognised contradiction wins over `not recognised`"""
     vals = list(vals)
@@ -1075,11 +1185,31 @@ def formulas(chk, lib):
     chk.ob("R11.1", "V::ten-point-sum-times-4pi", ok, W, "V = 4 pi * (b-a)/2 * sum_{i<10} vw_i dV((b-a)/2 vx_i + (a+b)/2) (found %s%s)" % (t, "; " + why if why else ""))
     t = low("scinv")
     dpos, zlr = sp.Symbol("d_pos", positive=True), sp.Symbol("zl", real=True)
-    front = [_case(t, {zl: zlr, zs: zlr}), _case(t, {zl: zlr, zs: zlr - dpos})]
-    chk.ob("R11.1", "scinv::zero-for-source-at-or-in-front-of-lens", None if any(f is None for f in front) else all(f == 0 for f in front), W,
-           "Sigma_crit^-1 = 0 for z_s = z_l and for z_s < z_l (found %s)" % front)
+    front_cases = [{zl: zlr, zs: zlr}, {zl: zlr, zs: zlr - dpos}]
+    front = [_case(t, c_) for c_ in front_cases]
+    why = []
+    if any(f is None for f in front):
+        # a guard of scinv that the order of the two redshifts does not decide by substitution (it tests distances): decided with
+        # what is known of the distances as functions of redshift (_by_redshift_order)
+        okf = _all3([(f == 0) if f is not None else _by_redshift_order(t, sp.Integer(0), c_, why) for f, c_ in zip(front, front_cases)])
+    else:
+        okf = all(f == 0 for f in front)
+    chk.ob("R11.1", "scinv::zero-for-source-at-or-in-front-of-lens", okf, W,
+           "Sigma_crit^-1 = 0 for z_s = z_l and for z_s < z_l (found %s%s)" % (front, ": " + "; ".join(sorted(set(why))) if why else ""))
     DaF = sp.Function("Da")
     behind = _case(t, {zl: zlr, zs: zlr + dpos})
+    live = [p_ for p_ in _pieces(t) if p_ != 0] if t is not None else []
+    if behind is None and len(live) == 1:
+        # the one non-zero value scinv can return must be what it returns for every source behind the lens
+        why = []
+        okb = _by_redshift_order(t, live[0], {zl: zlr, zs: zlr + dpos}, why)
+        return_early = okb is False
+        if okb is True:
+            behind = live[0].subs({zl: zlr, zs: zlr + dpos}, simultaneous=True)
+        if return_early:
+            chk.ob("R11.1", "scinv::distance-ratio", False, W, "Sigma_crit^-1 is the distance ratio for every z_s > z_l (%s)" % "; ".join(sorted(set(why))))
+    else:
+        return_early = False
     if behind is not None:
         v = behind.subs(dpos, zs - zl).subs(zlr, zl)
         k, rest = v.as_independent(DaF, as_Add=False)
@@ -1096,7 +1226,7 @@ def formulas(chk, lib):
             rel = None
         chk.ob("R11.1", "scinv::four-pi-G-over-c-squared", None if rel is None else rel < 1e-3, W,
                "the constant %s agrees with 4 pi G M_sun/c^2 per pc (x 1e6 pc/Mpc) = %.9g within 1e-3 (relative difference %s)" % (k, float(want), rel))
-    else:
+    elif not return_early:
         chk.ob("R11.1", "scinv::distance-ratio", None, W, "the value of scinv for z_s > z_l could not be isolated (found %s)" % t)
     if st is not None:
         pk, pDH, pflat = S("omega_k"), S("DH"), S("flat")
@@ -1768,21 +1898,71 @@ def wrappers(chk, lib, wrap, decls):
         st = []
         for s_ in L.stores:
             # the same store reached along several paths is one store
-            if not any(all(s_[f] == o[f] for f in ("base", "index", "value", "loop")) for o in st):
+            if not any(all(s_[f] == o[f] for f in ("base", "index", "value", "loop", "guard")) for o in st):
                 st.append(s_)
-        if len(st) != 1 or st[0]["loop"] is None:
+        places = {(s_["base"], s_["index"], s_["loop"]) for s_ in st}
+        if len(places) != 1 or st[0]["loop"] is None or L.partial_loops:
             for suffix in ("::computes-%s-of-its-arguments" % q, "::output-sized-from-array-argument", "::loop-over-all-elements", "::returns-new-array"):
-                chk.ob("R11.3", wname + suffix, None, W, "expected exactly one loop storing into one output array, found stores %s" % [(s_["base"], s_["index"]) for s_ in st])
+                chk.ob("R11.3", wname + suffix, None, W, "expected exactly one loop storing every element of one output array, found stores %s%s" % (
+                    [(s_["base"], s_["index"]) for s_ in st], "; some way through the loop body (line %s) stores nothing" % L.partial_loops if L.partial_loops else ""))
             return
         s0 = st[0]
         lo, hi = s0["loop"]
-        okv = bool(s0["index"] == IDX) and same(s0["value"])
-        unres = _unresolved_reads(s0["value"], fn)
-        if not okv and unres:
-            # the stored value reads an element through a local pointer the lowering has no value for (set through a channel it does
-            # not follow): nothing identified contradicts the rule
-            okv = None
-        chk.ob("R11.3", key_c, okv, W, "stores %s (found [%s] = %s%s)" % (ref_call, s0["index"], s0["value"], "; unresolved reads through %s" % unres if unres else ""))
+        if len(st) == 1 and s0["guard"] == sp.true:
+            okv = bool(s0["index"] == IDX) and same(s0["value"])
+            unres = _unresolved_reads(s0["value"], fn)
+            if not okv and unres:
+                # the stored value reads an element through a local pointer the lowering has no value for (set through a channel it does
+                # not follow): nothing identified contradicts the rule
+                okv = None
+            chk.ob("R11.3", key_c, okv, W, "stores %s (found [%s] = %s%s)" % (ref_call, s0["index"], s0["value"], "; unresolved reads through %s" % unres if unres else ""))
+        else:
+            # the element is stored under tests of the loop body (every way through the body stores it: partial_loops).  Each store
+            # is either the quantity of this element's arguments, or the element stored one iteration earlier -- which is that
+            # quantity (induction over the index) exactly when the test it is reached under makes every argument that varies with
+            # the index equal to its predecessor, and excludes the first iteration
+            verdicts, notes = [], []
+            varying = [a for a in args if IDX in getattr(a, "free_symbols", ())]
+            for s_ in st:
+                if s_["index"] != IDX:
+                    verdicts.append(None)
+                    notes.append("a store to element %s" % s_["index"])
+                    continue
+                if same(s_["value"]):
+                    verdicts.append(True)
+                    continue
+                prev = sp.Function(str(s_["base"]))(IDX - 1)
+                if s_["value"] != prev:
+                    # some other value under a test: whether it is the quantity where the test holds is not decided here
+                    verdicts.append(None)
+                    notes.append("where %s the element is %s" % (s_["guard"], s_["value"]))
+                    continue
+                g = s_["guard"]
+                conj = list(g.args) if isinstance(g, sp.And) else [g]
+                if any(isinstance(c_, (sp.Or, sp.Not)) and c_.has(sp.core.function.AppliedUndef) for c_ in conj):
+                    verdicts.append(None)
+                    notes.append("element i-1 is reused under the test %s, which is not a conjunction" % g)
+                    continue
+                first_out = False
+                for c_ in conj:
+                    try:
+                        if c_.free_symbols == {IDX} and c_.subs(IDX, lo) == sp.false:
+                            first_out = True
+                    except Exception:
+                        pass
+                equal = {frozenset((c_.lhs, c_.rhs)) for c_ in conj if isinstance(c_, sp.Eq)}
+                loose = [a for a in varying if frozenset((a, a.subs(IDX, IDX - 1))) not in equal]
+                if loose:
+                    verdicts.append(False)
+                    notes.append("element i is copied from element i-1 where %s, a test that does not make %s equal to %s: the reused value is %s of other arguments" % (
+                        g, ", ".join(str(a) for a in loose), ", ".join(str(a.subs(IDX, IDX - 1)) for a in loose), q))
+                elif not first_out:
+                    verdicts.append(False)
+                    notes.append("element i is copied from element i-1 where %s, which does not exclude the first element (i = %s)" % (g, lo))
+                else:
+                    verdicts.append(True)
+            chk.ob("R11.3", key_c, _all3(verdicts), W, "every element stored is %s, directly or as the previous element where the test makes the arguments equal to the previous ones (%s)" % (
+                ref_call, "; ".join(notes) if notes else "stores %s" % [(str(s_["guard"]), str(s_["value"])) for s_ in st]))
         arr = [names[k] for k, (n, v) in enumerate(argspec) if v and k < len(names)]
 
         def is_size(t):
@@ -2930,7 +3110,51 @@ class _ObjInterp(_Interp):
                 return
         _Interp.bind(self, t, v, env)
 
+    # floating-point-faithful terms: with fp set, an arithmetic operation on a value that is not a constant is kept as an
+    # application of fl_add / fl_sub / fl_mul / fl_div (one rounding each) instead of a term of real algebra, so that two terms
+    # are identical exactly when they are the same sequence of roundings on the same inputs.  Kept exact: both operands
+    # constants (Python computes the very double), multiplication / division by 1, and by a power of two (exact scaling).
+    fp = False
+
+    @staticmethod
+    def _fl(op, a, b):
+        def const(x):
+            return isinstance(x, (int, float)) and not isinstance(x, bool)
+
+        def pow2(x):
+            if not const(x) or x == 0:
+                return False
+            import math
+            m, _ = math.frexp(abs(float(x)))
+            return m == 0.5
+
+        if op in ("mul", "div") and const(b) and b == 1:
+            return a
+        if op == "mul" and const(a) and a == 1:
+            return b
+        if op == "mul" and (pow2(a) or pow2(b)):
+            return sp.sympify(a) * sp.sympify(b) if not (isinstance(a, sp.Basic) and isinstance(b, sp.Basic)) else a * b
+        if op == "div" and pow2(b):
+            return a / sp.Rational(b)
+        a_, b_ = sp.sympify(a), sp.sympify(b)
+        if op in ("add", "mul"):
+            a_, b_ = sorted((a_, b_), key=sp.default_sort_key)
+        return sp.Function("fl_" + op)(a_, b_)
+
     def ev(self, e, env, fi, depth):
+        if self.fp and isinstance(e, ast.BinOp) and isinstance(e.op, (ast.Add, ast.Sub, ast.Mult, ast.Div)):
+            a, b = self.ev(e.left, env, fi, depth), self.ev(e.right, env, fi, depth)
+            num = (int, float, sp.Basic)
+            if isinstance(a, num) and isinstance(b, num) and not isinstance(a, bool) and not isinstance(b, bool) and (isinstance(a, sp.Basic) or isinstance(b, sp.Basic)):
+                return self._fl({ast.Add: "add", ast.Sub: "sub", ast.Mult: "mul", ast.Div: "div"}[type(e.op)], a, b)
+            if isinstance(a, (int, float)) and isinstance(b, (int, float)) and not isinstance(a, bool) and not isinstance(b, bool):
+                try:
+                    return {ast.Add: lambda: a + b, ast.Sub: lambda: a - b, ast.Mult: lambda: a * b, ast.Div: lambda: a / b}[type(e.op)]()
+                except (ZeroDivisionError, OverflowError):
+                    return _UNKNOWN
+            if isinstance(a, str):
+                return _Interp.ev(self, e, env, fi, depth)
+            return _UNKNOWN
         if isinstance(e, ast.Attribute):
             b = self.ev(e.value, env, fi, depth)
             if isinstance(b, _Tag) and b.kind == "self" and hasattr(b, "attrs"):
@@ -3117,6 +3341,40 @@ def object_state(chk, repo):
                 chk.ob("R11.6", key, rec(rname, hname, _all3(res)), W,
                        "Cosmo(%s): the object obtained through %s has the same H0() and builds its extension object from the same (D_H, flat, omega_m, omega_l, omega_k) (original %s, duplicate %s)"
                        % (case, rname, [o["value"][0] for o in outs], [o["value"][1] for o in outs]))
+                # bit-identical distances: the duplicate's extension object must be built from the very same doubles, i.e. from
+                # arguments computed by the same roundings of the same inputs.  Arguments that are equal in real arithmetic but
+                # reached through other rounding operations (H0 -> H0/100 -> 100*(H0/100), say) differ in the last place for
+                # some inputs.  Decided on floating-point-faithful terms of the same abstract execution.
+                if _all3(res) is not True:
+                    continue
+                key2 = "state::%s-arguments-bit-identical[%s]" % (rname, case)
+                it = _ObjInterp(repo)
+                it.fp = True
+                try:
+                    outs2 = it.explore(both)
+                except _Unsup as e:
+                    chk.ob("R11.6", key2, None, W, "the code reached through %s uses a construct outside the interpreted subset (%s)" % (rname, e))
+                    continue
+                if not outs2 or any(o["kind"] != "return" for o in outs2):
+                    chk.ob("R11.6", key2, None, W, "construction or %s raises on some path" % rname)
+                    continue
+                res2, diff = [], []
+                for o in outs2:
+                    a, b = o["value"]
+                    undecided = any(k.startswith("test:") for k in o["dec"])
+                    for nm, x, y in list(zip(EXT_PARAMS, a["ext"], b["ext"])) + [("H0()", a["H0"], b["H0"])]:
+                        if isinstance(x, (_Tag, _Arg)) or isinstance(y, (_Tag, _Arg)):
+                            res2.append(None)
+                        elif isinstance(x, sp.Basic) or isinstance(y, sp.Basic):
+                            same_ = sp.sympify(x) == sp.sympify(y)
+                            if not same_:
+                                diff.append("%s: original %s, duplicate %s" % (nm, x, y))
+                            res2.append(True if same_ else (None if undecided else False))
+                        else:
+                            res2.append(True if (x is y or (type(x) is type(y) and x == y) or (isinstance(x, (int, float)) and isinstance(y, (int, float)) and not isinstance(x, bool) and not isinstance(y, bool) and x == y)) else None)
+                chk.ob("R11.6", key2, _all3(res2), W,
+                       "Cosmo(%s): the object obtained through %s builds its extension object from the same floating-point values, computed by the same rounding operations on the same inputs, so that its distances are bit-identical (%s)"
+                       % (case, rname, "; ".join(sorted(set(diff))) if diff else "identical terms"))
     return sem
 
 
